@@ -5,7 +5,7 @@ from . import reflex
 
 
 class Laid:
-    __slots__ = ("text", "pos", "nmarkers", "nfilechanges", "inside_markers", "extra", "ncollisions")
+    __slots__ = ("text", "pos", "nmarkers", "nfilechanges", "inside_markers", "extra", "ncollisions", "no_final_newline")
 
     def __init__(self):
         self.text = ""
@@ -14,6 +14,7 @@ class Laid:
         self.nfilechanges = 0
         self.inside_markers = []  # token indices directly preceded by a linemarker
         self.ncollisions = 0
+        self.no_final_newline = False
         self.extra = {}  # further token starts: position -> indices of the owning tokens (pragma strings; two pragmas can be re-based onto the same line)
 
 
@@ -57,15 +58,20 @@ def lay_out(toks, c, style="random", filename="f.c", marker_p=0.08, file_change=
             newline_if_needed()
             lead = "" if style != "random" else c.choice(["", "", " ", "\t"])
             emit(lead)
-            # the PPPRAGMA token starts at 'pragma'
-            out.pos.append((st["file"], st["line"], st["col"] + 1))
+            # blanks may stand between '#' and 'pragma'; the PPPRAGMA token starts at 'pragma'
+            gap = "" if style != "random" else c.choice(["", "", "", " ", "\t", "  "])
+            out.pos.append((st["file"], st["line"], st["col"] + 1 + len(gap)))
             # the text after 'pragma' is a token of its own (PPPRAGMASTR)
             rest = t.s[len("#pragma") :]
             if rest.strip(" \t"):
                 lead_ws = len(rest) - len(rest.lstrip(" \t"))
-                out.extra.setdefault((st["file"], st["line"], st["col"] + len("#pragma") + lead_ws), []).append(len(out.pos) - 1)
-            emit(t.s)
-            emit("\n")
+                out.extra.setdefault((st["file"], st["line"], st["col"] + len("#pragma") + len(gap) + lead_ws), []).append(len(out.pos) - 1)
+            emit("#" + gap + t.s[1:])
+            # the last line of the input need not end in a newline
+            if not (style == "random" and i == len(toks) - 1 and c.chance(0.5)):
+                emit("\n")
+            else:
+                out.no_final_newline = True
             prev = None
             run = []
             continue
